@@ -67,8 +67,9 @@ class MatchFnClosures(Edit):
     over straight-line boolean code. Closures that call anything else are left alone (they must be covered otherwise).
     ctor: the constructor the closures are handed to (`MatchFn :: new`, or `Self :: new` inside `impl .. for MatchFunction`)."""
 
-    def __init__(self, ctor='MatchFn :: new'):
+    def __init__(self, ctor='MatchFn :: new', calls=None):
         self.ctor = ctor
+        self.calls = calls or {}  # char methods a closure body may call -> the spec predicate that std contract gives them (`ch.is_numeric()` -> `spec_is_numeric(ch)`)
 
 
 class Wrap(Edit):
@@ -673,7 +674,7 @@ class Extractor:
         if not f.external_body:
             for e in f.edits:
                 if isinstance(e, MatchFnClosures):
-                    out = self.matchfn_closures(out, what, e.ctor)
+                    out = self.matchfn_closures(out, what, e.ctor, e.calls)
         attrs = f.attrs
         if f.external_body:
             attrs = (attrs + '\n' if attrs else '') + '#[verifier::external_body]'
@@ -685,7 +686,7 @@ class Extractor:
         return out, htxt, src.line_of(head_start)
 
 
-    def matchfn_closures(self, ftext, what, ctor='MatchFn :: new'):
+    def matchfn_closures(self, ftext, what, ctor='MatchFn :: new', calls=None):
         """rule E3 for closures handed to MatchFn::new (see class MatchFnClosures); works on the assembled function text"""
         toks = lex(ftext)
         pair = match_brackets(toks)
@@ -707,9 +708,14 @@ class Extractor:
             par2 = '__ch' if par == '_' else par
             ex_body = re.sub(r'\.\s*inner\s*\(\s*\)\s*\(', '.__call(', btxt)
             rest = re.sub(r'\.__call\(', '(', ex_body)
+            sp_src = ex_body
+            for meth, specfn in (calls or {}).items():
+                # `x.meth()` on the closure parameter: std contract `r == specfn(x)`
+                rest = re.sub(r'\b%s\s*\.\s*%s\s*\(\s*\)' % (re.escape(par2), meth), '%s(%s)' % (specfn, par2), rest)
+                sp_src = re.sub(r'\b%s\s*\.\s*%s\s*\(\s*\)' % (re.escape(par2), meth), '%s(%s)' % (specfn, par2), sp_src)
             if re.search(r'\.\s*[A-Za-z_]\w*\s*\(', rest):
                 continue  # calls something else than a captured MatchFn: not a boolean combination
-            sp_body = ex_body.replace('.__call(', '.sem()(')
+            sp_body = sp_src.replace('.__call(', '.sem()(')
             n += 1
             rep = ('{ let ghost __g%d = |%s: char| %s; let __cl%d = %s|%s: char| -> (b: bool) ensures b == (%s) { %s }; '
                    'proof { assert(mf_models(__cl%d, __g%d)); } %s(__cl%d) }') % (n, par2, sp_body, n, mv, par2, sp_body, ex_body, n, n, ctor_txt, n)
